@@ -9,6 +9,14 @@
      _data_slices_from_coordinates 1041-1115, _step_size_from_coordinates 1118-1136
    and crystal_map_properties.py 60-93.
 
+   The model follows the code AFTER the four C11 repairs (fix: commits
+   01-getitem-slice-keeps-masked-out-points, 02-data-slices-relative-to-map-
+   origin, 03-get-map-data-rgb-guess-needs-2d-item, 04-single-point-map-row-
+   col-get-map-data): the slice path ANDs the key with the old mask inside the
+   window, data slices are computed from coordinates relative to the minimum
+   of ALL points, a 1-D array item is never read as an RGB triple, and a
+   0-dimensional (single point) map has row = col = [0] and a 0-d map array.
+
    A map is the tuple of its FULL-SIZE arrays plus the boolean mask
    is_in_data; a selection differs from its source only in the mask
    (copy.copy is shallow).  Coordinates are rationals (the exact values of
@@ -141,8 +149,9 @@ Definition rel_idx (idx : list nat) (W : list (nat * nat)) : list nat :=
 
 Definition wshape_of (W : list (nat * nat)) : list nat := map (fun w => snd w - fst w) W.
 
-(* target.reshape(oshape)[slices] = value, value given as a function of its
-   index vector, value shape vshape; numpy broadcasting of the value *)
+(* target.reshape(oshape)[slices] &= value, value given as a function of its
+   index vector, value shape vshape; numpy broadcasting of the value into the
+   window (in-place operator: the value must broadcast to the window shape) *)
 Definition window_assign (oshape : list nat) (old : list bool) (ds : list (Z * Z))
            (vshape : list nat) (S : list nat -> bool) : res (list bool) :=
   if negb (length old =? size oshape) then Err ValueError else
@@ -151,7 +160,8 @@ Definition window_assign (oshape : list nat) (old : list bool) (ds : list (Z * Z
   if negb (forallb2 (fun w v => (w =? v) || (v =? 1)) (wshape_of W) vshape) then Err ValueError
   else Ok (map (fun p => let idx := unravel oshape p in
                          if in_win idx W
-                         then S (zip_with (fun r v => if v =? 1 then 0 else r) (rel_idx idx W) vshape)
+                         then nth p old false &&
+                              S (zip_with (fun r v => if v =? 1 then 0 else r) (rel_idx idx W) vshape)
                          else nth p old false)
                (seq 0 (length old))).
 
@@ -221,11 +231,15 @@ Definition axis1 (c : option (list Q)) : list (list Q * Q) :=
   end.
 Definition axes (m : cmap) : list (list Q * Q) := axis1 (ys m) ++ axis1 (xs m).
 
+(* CrystalMap._data_slices_from_coordinates first subtracts the minimum of
+   ALL coordinates of the axis (v - np.min(self._all_coordinates[k])); min and
+   max commute with that shift *)
 Definition slice1 (sel : list bool) (only : bool) (a : list Q * Q) : res (Z * Z) :=
+  let c0 := qminl (fst a) in
   let cs := if only then mask_filter sel (fst a) else fst a in
   match cs with
   | [] => Err ValueError                       (* np.min of an empty array *)
-  | _ => Ok (rhe (qminl cs / snd a)%Q, rhe (qmaxl cs / snd a + 1)%Q)
+  | _ => Ok (rhe ((qminl cs - c0) / snd a)%Q, rhe ((qmaxl cs - c0) / snd a + 1)%Q)
   end.
 
 Definition data_slices (only : bool) (m : cmap) : res (list (Z * Z)) :=
@@ -311,6 +325,7 @@ Definition view_get (register : list bool) (d : list (string * list V)) (k : str
 (* row / col: indices of the 2-D (padded) original shape, minus their minimum *)
 Definition rc_shape (m : cmap) : res (nat * nat) :=
   match oshape m with
+  | [] => Ok (1, 1)                             (* single point *)
   | [n] => Ok (match acc_x m with None => (n, 1) | Some _ => (1, n) end)
   | [a; b] => Ok (a, b)
   | _ => Err ValueError
@@ -335,32 +350,29 @@ Definition acc_col (m : cmap) : res (list nat) :=
   end.
 
 (* get_map_data(item): vals = the values of the in-data points (what the
-   attribute lookup returned, or the array passed as item); None = fill value.
-   Returns (shape, flat C-order data). *)
+   attribute lookup returned, or the 1-D array passed as item: is_array); None =
+   fill value.  Returns (shape, flat C-order data).  The RGB guess needs
+   item.ndim > 1, so a 1-D array item goes through the same scalar path as an
+   attribute name (dtype handling is not modelled): is_array does not matter.
+   On a 0-dimensional (single point) map the sliced array is a NumPy scalar,
+   which cannot be filled: an EMPTY selection of such a map raises TypeError. *)
 Definition get_map_data (m : cmap) (is_array : bool) (vals : list V)
   : res (list nat * list (option V)) :=
-  match oshape m with
-  | [] => Err TypeError          (* np.prod(()) is the float 1.0; np.empty(1.0) raises *)
-  | _ =>
-    let n := count (ind m) in
-    let map_size := size (oshape m) in
-    let rgb := is_array && (length vals =? 3) && (3 <? map_size) in
-    if negb (length (ind m) =? map_size) then Err IndexError else   (* array[self.is_in_data] *)
-    if negb (rgb || (length vals =? n) || (length vals =? 1)) then Err ValueError else
-    let svals : list (option V) :=
-      if length vals =? n then map Some vals else repeat (hd_error vals) n in
-    ds <- data_slices true m ;;
-    if negb (length ds =? length (oshape m)) then Err IndexError else
-    let W := zip_with win_bounds (oshape m) ds in
-    let ws := wshape_of W in
-    let cell (q : nat) : nat := ravel (oshape m) (zip_with (fun j w => j + fst w) (unravel ws q) W) in
-    if rgb then
-      Ok (ws ++ [3], flat_map (fun q => if nth (cell q) (ind m) false
-                                        then map Some vals else [None; None; None])
-                              (seq 0 (size ws)))
-    else
-      let full := scatter None (ind m) svals in
-      Ok (ws, map (fun q => nth (cell q) full None) (seq 0 (size ws)))
+  let n := count (ind m) in
+  let map_size := size (oshape m) in
+  if negb (length (ind m) =? map_size) then Err IndexError else   (* array[self.is_in_data] *)
+  if negb ((length vals =? n) || (length vals =? 1)) then Err ValueError else
+  let svals : list (option V) :=
+    if length vals =? n then map Some vals else repeat (hd_error vals) n in
+  ds <- data_slices true m ;;
+  if negb (length ds =? length (oshape m)) then Err IndexError else
+  let W := zip_with win_bounds (oshape m) ds in
+  let ws := wshape_of W in
+  let cell (q : nat) : nat := ravel (oshape m) (zip_with (fun j w => j + fst w) (unravel ws q) W) in
+  let full := scatter None (ind m) svals in
+  match oshape m, n with
+  | [], 0 => Err TypeError       (* np.float64 scalar does not support item assignment *)
+  | _, _ => Ok (ws, map (fun q => nth (cell q) full None) (seq 0 (size ws)))
   end.
 
 End Model.
@@ -411,19 +423,15 @@ Definition static {V R} (m : cmap V R) : grid :=
   {| g_shape := oshape m; g_pid := pid m; g_phases := phases m |}.
 
 (* ------------------------------------------------------------- guards *)
-(* the selection `ids` is a full rectangle: every point of its bounding box
-   is selected *)
-Definition rectb (s : list nat) (ids : list nat) : bool :=
-  let bb := bbox s ids in
-  forallb (fun p => implb (in_win (unravel s p) bb) (memb p ids)) (seq 0 (size s)).
-
 (* no phase is called "indexed" (any case), and there is at least one phase *)
 Definition phases_okb (phases : list (Z * string)) : bool :=
   negb (length phases =? 0) && forallb (fun ph => negb (is_indexed_kw (snd ph))) phases.
 
+(* the only guard left: for a phase key, the keyword "indexed" must not be
+   shadowed by a phase of that name (then the key itself is ambiguous) *)
 Definition guardb (g : grid) (ids : list nat) (k : key) : bool :=
   match k with
-  | KSel _ => rectb (g_shape g) ids
+  | KSel _ => true
   | KPhase _ => phases_okb (g_phases g)
   | KMask _ => true
   end.
@@ -437,13 +445,13 @@ Fixpoint hist_guardb (g : grid) (ids : list nat) (ops : list key) : bool :=
 
 (* grid well-formedness of the coordinates, decidable version:
    every axis' coordinate array determines the axis index through
-   round(c/step) (zero grid offset), and is monotone in it. *)
+   round((c - min c)/step) (any grid origin), and is monotone in it. *)
 Definition axis_okb (s : list nat) (d : nat) (a : list Q * Q) : bool :=
-  let c := fst a in let st := snd a in
+  let c := fst a in let st := snd a in let c0 := qminl c in
   (length c =? size s) &&
   forallb (fun p =>
-    Z.eqb (rhe (nth p c 0%Q / st)%Q) (Z.of_nat (ix s d p)) &&
-    Z.eqb (rhe (nth p c 0%Q / st + 1)%Q) (Z.of_nat (ix s d p) + 1)%Z &&
+    Z.eqb (rhe ((nth p c 0%Q - c0) / st)%Q) (Z.of_nat (ix s d p)) &&
+    Z.eqb (rhe ((nth p c 0%Q - c0) / st + 1)%Q) (Z.of_nat (ix s d p) + 1)%Z &&
     forallb (fun q => implb (ix s d p <=? ix s d q) (Qle_bool (nth p c 0%Q) (nth q c 0%Q)))
             (seq 0 (size s)))
     (seq 0 (size s)).
